@@ -21,7 +21,7 @@ import tempfile
 import time
 import traceback
 
-from . import env
+from . import env, monitor
 
 VERIF = env.VERIF
 KNOWN_FILE = os.path.join(VERIF, "known_findings.json")
@@ -83,6 +83,7 @@ class Ctx:
 
     def case(self, payload, nontrivial=True, tags=()):
         """Count one executed case.  `payload` identifies it (hashed for distinctness)."""
+        monitor.STEPS.reset()
         self.evaluations += 1
         h = hashlib.sha1(payload.encode("utf-8", "replace") if isinstance(payload, str) else json.dumps(payload, sort_keys=True, default=str).encode()).hexdigest()[:16]
         self.all_hashes.add(h)
@@ -132,6 +133,10 @@ class Ctx:
         }
 
 
+def _magnitude(n):
+    return "0" if n == 0 else "<%d" % (10 ** len(str(n)))
+
+
 def worker_main(pid, tier, seed, worker, nworkers, outpath):
     from . import monitor
 
@@ -140,6 +145,7 @@ def worker_main(pid, tier, seed, worker, nworkers, outpath):
     ctx = Ctx(pid, tier, seed, worker, nworkers)
     cov = monitor.Coverage()
     cov.start()
+    monitor.STEPS.start()
     status = "ok"
     err = None
     try:
@@ -151,6 +157,8 @@ def worker_main(pid, tier, seed, worker, nworkers, outpath):
         status = "crash"
         err = traceback.format_exc()
     cov.stop()
+    monitor.STEPS.stop()
+    ctx.obs["largest number of loop iterations in the package within one case: %s" % _magnitude(monitor.STEPS.max_seen)] += 1
     out = ctx.dump()
     out["status"] = status
     out["error"] = err
